@@ -82,12 +82,21 @@ PLAN = {
     "C07": {
         "inv": ["TypeOK", "NoServiceableWaiter"],
         "prop": ["PassImplementsRel"],
-        "mc_quick": ["CfgsQ1", "CfgsQ3"],
+        "mc_quick": [("CfgsQ1a", {"maxclock": 1}), ("CfgsQ3a", {"faults": 0})],
         "live": "CfgsL1",
         "vacuity": [("DevNoPass", "CfgsQ1", "NoServiceableWaiter")],
         "scen_quick": ["h1-max1-AAB", "h1-max1-pto", "h1-guess-max1"],
         "scen_thorough": ["h1-max1-AAB", "h1-max1-pto", "h1-max1-pto-AB", "h1-guess-max1", "h1-guess-max2", "h1-max2-AAAA", "h1-max1-close", "h1-max1-abandon", "h1-max3-ABCAB"],
         "strategies": ["base", "dfs", "fault", "cancel-scope"],
+    },
+    "C16": {
+        "inv": ["TypeOK", "Forgotten"],
+        "prop": ["PoolTimeoutExact"],
+        "mc_quick": [("CfgsTO", {"maxclock": 3, "faults": 0})],
+        "vacuity": [("DevTO", "CfgsTO", "PoolTimeoutExact")],
+        "scen_quick": ["h1-max1-pto", "h1-max1-pto-AB"],
+        "scen_thorough": ["h1-max1-pto", "h1-max1-pto-AB", "h1-max1-pto-zero"],
+        "strategies": ["base", "dfs", "late", "time"],
     },
     "C09": {
         "inv": ["TypeOK"],
@@ -109,6 +118,8 @@ def stimulus_class(label, run):
             out.append(f"cancel/{e['style']}/{'shielded' if e.get('shielded') else 'open'}/{e.get('blocked')}")
         elif e["ev"] == "Fault":
             out.append(f"fault/{e['kind']}/{e['fault']}")
+        elif e["ev"] == "Tick" and e.get("injected"):
+            out.append("time/deadline-between-quanta")
     return sorted(set(out)) or ["none"]
 
 
@@ -127,7 +138,10 @@ class PoolRunner:
         states = trans = 0
         runs = []
         for cfgs in self.plan["mc_quick"]:
-            res = tlc.model_check("MCPool", mc_cfg(cfgs, self.plan["inv"], self.plan["prop"]), tag="mc")
+            kw = {}
+            if isinstance(cfgs, tuple):
+                cfgs, kw = cfgs
+            res = tlc.model_check("MCPool", mc_cfg(cfgs, self.plan["inv"], self.plan["prop"], **kw), tag="mc")
             runs.append({"cfgs": cfgs, "distinct": res["distinct"], "generated": res["states"], "ok": res["ok"], "wall_s": round(res["wall_s"], 1)})
             if not res["ok"]:
                 raise tlc.MachineryError(
@@ -198,9 +212,6 @@ class PoolRunner:
         quick = self.tier == "quick"
         for name in names:
             scen = SCENARIOS[name]
-            scripted_only = any("start" in c.get("gates", ()) for c in scen.calls)
-            if scripted_only:
-                continue
             if "base" in strategies:
                 run = scen.make()
                 run.run()
@@ -227,6 +238,9 @@ class PoolRunner:
                     run.quiesce()
                     run.snapshot("End", live=run.live())
                 self.add(scen, ("poolclose",), run)
+            if "time" in strategies:
+                for label, run in explore.time_variants(scen.make):
+                    self.add(scen, label, run)
             if "late" in strategies:
                 for label, run in explore.arrival_variants(scen.make, with_faults=("late+fault" in strategies), stride=1):
                     self.add(scen, label, run)
@@ -393,17 +407,29 @@ class PoolRunner:
 
 def run(prop, tier):
     chk = Check(prop, tier, "model_checking")
+    run_into(chk, prop, tier)
+    return chk.finish()
+
+
+def run_into(chk, prop, tier, prefix=""):
     plan = PLAN[prop]
     tlc.sany("MCPool.tla")
     tlc.sany("MCPoolTrace.tla")
     r = PoolRunner(chk, plan, tier)
+    ph = {}
+    t = time.time()
     r.model_check()
+    ph["model_check"] = round(time.time() - t, 1)
+    t = time.time()
     r.explore()
+    ph["execute"] = round(time.time() - t, 1)
+    t = time.time()
     r.judge()
+    ph["validate+diagnose"] = round(time.time() - t, 1)
+    chk.coverage["phase_s"] = ph
     chk.coverage["trusted_base"] = ["TLC 1.8.0", "harness/vloop.py + simnet.py (deterministic runtime, simulated network)", "anyio 4.x on asyncio", "projection through public API (info(), is_*(), repr(pool))"]
     chk.assumptions += [
         "peers answer every complete request with exactly one well-framed response",
         "async pool on asyncio/anyio; schedules are those a FIFO event loop can produce with the driver choosing I/O completion order, cancellations, faults and time",
         "bounds: <= 6 calls, <= 12 connections per execution; model instances as listed in model_runs",
     ]
-    return chk.finish()
